@@ -25,9 +25,15 @@ Definition tool_free (r : repo) : bool :=
 (* every build is of a well-formed request: see wf_repo / distinct_srcs in Model/Engine.v *)
 Definition step_wf (s : hstep) : bool :=
   match s with
-  | HBuild _ r req => wf_repo (restrict r req) && distinct_srcs (restrict r req) && tool_free (restrict r req)
+  | HBuild _ r req => wf_repo (restrict r req) && distinct_srcs (restrict r req)
   | HWipe => true
   end.
+(* no build of the history is of a request with tools (hypothesis of the partial theorems of C01 / C02; the statements
+   themselves are about all well-formed histories, tools included) *)
+Definition step_tool_free (s : hstep) : bool :=
+  match s with HBuild _ r req => tool_free (restrict r req) | HWipe => true end.
+Definition tool_free_history (h : list hstep) : bool := forallb step_tool_free h.
+Definition step_wf_t (s : hstep) : bool := step_wf s && step_tool_free s.
 
 (* the trees the filegroups of the history link: files, or whole source directories *)
 Definition fg_srcs_of (s : hstep) : list node :=
@@ -80,6 +86,13 @@ Definition wit_target (srcs : list str) (key : str) : target :=
   mkT (s "//p:d") (s "p") (Genrule CopyDir) (map SFile srcs) [s "d_dir"] key.
 Definition wit_r1 : repo := mkR [(s "p/a.txt", s "x")] [wit_target [s "a.txt"] (s "k1")].
 Definition wit_r2 : repo := mkR [(s "p/b.txt", s "x")] [wit_target [s "b.txt"] (s "k2")].
+
+(* the 2-step witness of the tools refutation: use writes the NAMES of its tool's outputs; the output of the tool gen is
+   renamed gen.out -> gen2.out with identical content *)
+Definition tw_gen (out key : str) : target := mkT (s "//p:gen") (s "p") (Genrule (Const (s "tool"))) [] [out] key.
+Definition tw_use : target := mkT (s "//p:use") (s "p") (Genrule ToolNames) [STool (s "//p:gen")] [s "use.out"] (s "ku").
+Definition tw_r1 : repo := mkR [] [tw_gen (s "gen.out") (s "k1"); tw_use].
+Definition tw_r2 : repo := mkR [] [tw_gen (s "gen2.out") (s "k2"); tw_use].
 
 (* the 3-step witness of the output_dirs refutation: t copies its sources into _o; tree A: srcs [a.txt], declared out
    m1; tree B: srcs [a.txt, b.txt], declared out m2; then tree A again *)
